@@ -42,6 +42,7 @@ type FuncInfo struct {
 	Decl *ast.FuncDecl
 	Pkg  *packages.Package
 	Lit  *ast.FuncLit // set for function literals (Obj/Decl are those of the enclosing declaration)
+	P    *Prog        // the program this function belongs to
 }
 
 func (f *FuncInfo) Name() string {
@@ -107,6 +108,9 @@ type Prog struct {
 	chaG     *callgraph.Graph
 	nOwnFn   int
 	ssaSites map[*ssa.Function][]ssa.CallInstruction
+	// per-program memo tables (two programs — the tree and the tree with positive controls — are loaded concurrently)
+	regionMemo map[string][]*FuncInfo
+	seedBusy   map[*FuncInfo]bool
 }
 
 // SSACallSites returns every static call of fn in own code (including calls from function literals).
@@ -250,8 +254,10 @@ func Load(o LoadOpts) (*Prog, error) {
 		}
 	}
 	sort.Slice(p.Funcs, func(i, j int) bool { return p.Funcs[i].Name() < p.Funcs[j].Name() })
+	for _, fi := range p.Funcs {
+		fi.P = p
+	}
 	computeExitHelpers(p)
-	theProg = p
 	return p, nil
 }
 
